@@ -70,7 +70,7 @@ template <class T> void elementwise(vf::Ctx& c, vector<T> a, vector<T> b, T s, i
 }
 }  // namespace
 
-LAW(L01_elementwise, RC, 24000, 800000, 140, "operand of length <= 1 or unequal lengths") {
+LAW(L01_elementwise, RC, 48000, 1440000, 140, "operand of length <= 1 or unequal lengths") {
   int op = c.irange(0, 20); bool isInt = !c.flag();
   size_t n = genLen(c), m = genLen2(c, n);
   if (isInt) { auto a = genInts(c, n, 9), b = genInts(c, m, 9); elementwise<int>(c, a, b, static_cast<int>(c.zig(9)), op, true); }
@@ -106,7 +106,7 @@ bool closeTo(double got, LD ref, LD tol, vf::Ctx& c, const char* what) {
 }
 }  // namespace
 
-LAW(L02_reductions_exact, RC, 24000, 800000, 210, "an operand of length <= 1, or unequal lengths") {
+LAW(L02_reductions_exact, RC, 48000, 1440000, 210, "an operand of length <= 1, or unequal lengths") {
   int f = c.irange(0, 11); bool isInt = !c.flag();
   size_t n = genLen(c), m = (f == 0 || f == 1 || f == 2 || f == 3 || f == 7) ? n : genLen2(c, n);
   if (f == 11) { n = genLen(c, 12); m = genLen(c, 12); }
@@ -206,7 +206,7 @@ LAW(L02_reductions_exact, RC, 24000, 800000, 210, "an operand of length <= 1, or
   }
 }
 
-LAW(L02_reductions_real, RC, 16000, 500000, 210, "length <= 2, or a sum with cancellation (|sum| < sum|terms|/4)") {
+LAW(L02_reductions_real, RC, 32000, 960000, 210, "length <= 2, or a sum with cancellation (|sum| < sum|terms|/4)") {
   int f = c.irange(0, 8); size_t n = genLen(c);
   double span = c.pick({1.0, 100.0, 1e6});
   auto a = genReals(c, n, -span, span), b = genReals(c, n, -span, span); auto w = genWeights(c, n);
@@ -276,7 +276,7 @@ template <class T> void extrema(vf::Ctx& c, const vector<T>& v, int f, const cha
 }
 }  // namespace
 
-LAW(L03_extrema_order, RC, 20000, 600000, 80, "length <= 1 or ties") {
+LAW(L03_extrema_order, RC, 40000, 1200000, 80, "length <= 1 or ties") {
   int f = c.irange(0, 8); size_t n = genLen(c);
   switch (c.weighted({3, 2, 2})) {
     case 0: extrema<int>(c, genInts(c, n, c.pick({1, 3, 9})), f, "int"); break;
@@ -289,7 +289,7 @@ LAW(L03_extrema_order, RC, 20000, 600000, 80, "length <= 1 or ties") {
 // median (reals; sorts its argument): middle element / mean of the two middle elements of the sorted sample.
 // No exception is documented for these functions: for empty input or a weight vector of another length only
 // "no out-of-range access" is demanded (a DimensionException is tolerated).
-LAW(L04_median_mean_center, RC, 20000, 600000, 150, "length <= 2, ties, or a zero weight") {
+LAW(L04_median_mean_center, RC, 40000, 1200000, 150, "length <= 2, ties, or a zero weight") {
   int f = c.irange(0, 4); size_t n = genLen(c); bool dy = !c.flag();
   auto v = dy ? genDyadic(c, n, 64) : genReals(c, n, -100, 100);
   bool weighted = f == 2 || f == 4; size_t wl = weighted ? genLen2(c, n) : 0;
@@ -304,7 +304,7 @@ LAW(L04_median_mean_center, RC, 20000, 600000, 150, "length <= 2, ties, or a zer
     if (n == 0) return;  // undocumented: not inspected
     auto s = v; sort(s.begin(), s.end());
     LD e = n % 2 ? static_cast<LD>(s[n / 2]) : (static_cast<LD>(s[n / 2 - 1]) + s[n / 2]) / 2;
-    CHECK(closeTo(g, e, 2 * EPS * fabsl(e), c, "median"), "median=" << sh(g) << " expected " << sh(static_cast<double>(e)));
+    CHECK(closeTo(g, e, 4 * EPS * fabsl(e), c, "median"), "median=" << sh(g) << " expected " << sh(static_cast<double>(e)));
     auto a2 = cp; sort(a2.begin(), a2.end()); CHECK(a2 == s, "median changed the multiset of its argument");
     return;
   }
@@ -337,7 +337,7 @@ LAW(L04_median_mean_center, RC, 20000, 600000, 150, "length <= 2, ties, or a zer
 // unbiased: *n/(n-1) resp. /(1-sum w_i^2).  Tolerance 64(n+2)eps*max|x|*max|y| (128 weighted), derived from the
 // forward error of the two-pass algorithm.  cor is inspected only when both variances exceed 100x their tolerance.
 // Documented DimensionException: cov/cor (two vectors), weighted var/sd (vector and weights), weighted cov/cor (two vectors).
-LAW(L05_moments, RC, 24000, 800000, 220, "length <= 2, a constant vector, ties, a zero weight or unequal lengths") {
+LAW(L05_moments, RC, 48000, 1440000, 220, "length <= 2, a constant vector, ties, a zero weight or unequal lengths") {
   int f = c.irange(0, 7); size_t n = genLen(c);
   static const char* const NM[] = {"var", "sd", "cov", "cor", "var_w", "sd_w", "cov_w", "cor_w"};
   bool two = f == 2 || f == 3 || f == 6 || f == 7, weighted = f >= 4;
@@ -405,7 +405,7 @@ LAW(L05_moments, RC, 24000, 800000, 220, "length <= 2, a constant vector, ties, 
 // shannon(freq, base) = -sum_{x>0} x log_base x; shannonDiscrete / miDiscrete recomputed from counts:
 // MI = H(X)+H(Y)-H(X,Y) >= 0, symmetric.  miDiscrete documents DimensionException.  The default base is the
 // literal 2.7182818 of the signature.
-LAW(L06_entropy, RC, 16000, 500000, 150, "length <= 1, ties (repeated states), or unequal lengths") {
+LAW(L06_entropy, RC, 32000, 960000, 150, "length <= 1, ties (repeated states), or unequal lengths") {
   int f = c.irange(0, 2); size_t n = genLen(c); double base = c.pick({2.7182818, 2.0, 10.0}); bool dflt = base == 2.7182818 && c.flag();
   LD lb = logl(static_cast<LD>(base));
   if (f == 0) {
@@ -454,7 +454,7 @@ const char* const SETF[] = {"countValues", "unique", "isUnique", "which", "which
                             "haveSameElements(const)", "haveSameElements", "vectorUnion(a,b)", "vectorUnion(vv)", "vectorIntersection(a,b)",
                             "vectorIntersection<T,U>", "vectorIntersection(vv)"};
 }
-LAW(L07_sets, RC, 32000, 1000000, 220, "an empty or one-element operand, or repeated elements") {
+LAW(L07_sets, RC, 64000, 1920000, 220, "an empty or one-element operand, or repeated elements") {
   int f = c.irange(0, 15); int k = c.pick({2, 4, 12});
   size_t n = genLen(c, 24), m = genLen(c, 24);
   auto a = genInts(c, n, k), b = genInts(c, m, k); int el = static_cast<int>(c.zig(k + 1));
@@ -519,7 +519,7 @@ LAW(L07_sets, RC, 32000, 1000000, 220, "an empty or one-element operand, or repe
 namespace {
 const char* const BLD[] = {"append", "prepend", "append(vv)", "extend", "rep", "diff", "seq<int>", "seq<double>", "breaks", "fill"};
 }
-LAW(L08_builders, RC, 24000, 800000, 200, "an empty operand, repeated elements, from >= to, or a range of width 0") {
+LAW(L08_builders, RC, 48000, 1440000, 200, "an empty operand, repeated elements, from >= to, or a range of width 0") {
   int f = c.irange(0, 9); int k = c.pick({2, 4, 12});
   c.desc << BLD[f];
   if (f == 6 || f == 7) {
@@ -547,7 +547,7 @@ LAW(L08_builders, RC, 24000, 800000, 200, "an empty operand, repeated elements, 
     double mn = *min_element(v.begin(), v.end()), mx = *max_element(v.begin(), v.end()); c.nt(mn == mx);
     CHECK(g.size() == nc + 1, "breaks returned " << g.size() << " points for " << nc << " classes");
     CHECK(g[0] == mn && g[nc] == mx, "breaks end points " << sh(g[0]) << "," << sh(g[nc]) << " expected " << sh(mn) << "," << sh(mx));
-    for (unsigned i = 0; i <= nc; ++i) { LD e = mn + (static_cast<LD>(mx) - mn) * i / nc; CHECK(closeTo(g[i], e, 4 * EPS * (fabsl(mn) + fabsl(mx)), c, "breaks"), "breaks[" << i << "]=" << sh(g[i]) << " expected " << sh(static_cast<double>(e))); }
+    for (unsigned i = 0; i <= nc; ++i) { LD e = mn + (static_cast<LD>(mx) - mn) * i / nc; CHECK(closeTo(g[i], e, 8 * EPS * (fabsl(mn) + fabsl(mx)), c, "breaks"), "breaks[" << i << "]=" << sh(g[i]) << " expected " << sh(static_cast<double>(e))); }
     return;
   }
   size_t n = genLen(c, 24), m = genLen(c, 24); auto a = genInts(c, n, k), b = genInts(c, m, k);
@@ -566,7 +566,7 @@ LAW(L08_builders, RC, 24000, 800000, 200, "an empty operand, repeated elements, 
       CHECK(tail == e, "extend appended " << shv(vector<int>(g.begin() + static_cast<long>(n), g.end())) << ", expected the elements of b absent from a"); break; }
     case 4: { size_t r = static_cast<size_t>(c.irange(0, 4)); c.desc << " times=" << r; vector<int> e; for (size_t i = 0; i < r; ++i) e.insert(e.end(), a.begin(), a.end());
       auto g = VT::rep(a, r); CHECK(g == e, "rep=" << shv(g) << " expected " << shv(e)); break; }
-    case 5: { c.desc << " b=" << shv(b); vector<int> pre = c.flag() ? vector<int>() : vector<int>{99, 98}; c.desc << " v3=" << shv(pre);
+    case 5: { c.desc << " b=" << shv(b); vector<int> pre = c.flag() ? vector<int>{99, 98} : vector<int>(); c.desc << " v3=" << shv(pre);
       if (m == 0 && n > 0) c.excludeIfKnown("C07-diff-empty-v2");  // appends v1, falls through, v2.size()-1 wraps, reads v2[0]
       auto a2 = tight(a), b2 = tight(b), g = tight(pre); VT::diff(a2, b2, g);
       CHECK(g.size() >= pre.size() && vector<int>(g.begin(), g.begin() + static_cast<long>(pre.size())) == pre, "diff changed the existing content of v3");
@@ -607,7 +607,7 @@ bool logNT(const vector<double>& v) {
 const char* const LOGF[] = {"logSumExp", "logMeanExp", "sumExp", "logNorm", "shift"};
 }  // namespace
 
-LAW(L09_logdomain, RC, 24000, 800000, 160, "length <= 1, a -inf/+inf entry, an entry whose exp over/underflows (|x|>709) or vanishes against the maximum") {
+LAW(L09_logdomain, RC, 48000, 1440000, 210, "length <= 1, a -inf/+inf entry, an entry whose exp over/underflows (|x|>709) or vanishes against the maximum") {
   int f = c.irange(0, 4); size_t n = genLen(c); bool integral = false;
   auto v = genLogVec(c, n, f != 3, &integral);
   c.desc << LOGF[f] << " v=" << shv(v); c.nt(logNT(v));
@@ -665,7 +665,7 @@ LAW(L09_logdomain, RC, 24000, 800000, 160, "length <= 1, a -inf/+inf entry, an e
 // logSumExp(v,w) = log sum w_i exp(v_i), sumExp(v,w) = sum w_i exp(v_i), w >= 0, no +inf entry.
 // Accepted: DimensionException for unequal lengths, EmptyVectorException for empty input (nothing documented); for an
 // all-(-inf) vector the code deliberately raises BadNumberException: accepted as well as the value log 0 / 0.
-LAW(L10_logdomain_weighted, RC, 24000, 800000, 220, "length <= 1, a -inf entry, a zero weight, or an entry whose exp over/underflows") {
+LAW(L10_logdomain_weighted, RC, 48000, 1440000, 280, "length <= 1, a -inf entry, a zero weight, or an entry whose exp over/underflows") {
   int f = c.irange(0, 1); size_t n = genLen(c), m = genLen2(c, n); bool integral = false;
   auto v = genLogVec(c, n, false, &integral); auto w = genWeights(c, m);
   if (c.oneIn(4) && n == m && n > 1) { size_t p = static_cast<size_t>(max_element(v.begin(), v.end()) - v.begin()); w[p] = 0; }  // the maximum carries no weight
@@ -676,10 +676,14 @@ LAW(L10_logdomain_weighted, RC, 24000, 800000, 220, "length <= 1, a -inf entry, 
   if (n != m) { call(); CHECK(exc == 1 || exc == 0, "unexpected exception kind " << exc << " for unequal lengths"); return; }
   if (n == 0) { call(); CHECK(exc == 2 || exc == 0, "unexpected exception kind " << exc << " for empty input"); return; }
   double Mall = *max_element(v.begin(), v.end()); LD Meff; LD ref = wlseRef(v, w, &Meff);
-  LD D = std::isfinite(Mall) && !std::isinf(Meff) ? static_cast<LD>(Mall) - Meff : 0;  // distance between the shift used and the largest weighted entry
-  if (std::isfinite(Mall) && !std::isinf(Meff) && D > 690) c.excludeIfKnown("C07-weighted-shift-by-unweighted-max");
+  double Mz = -INF; for (size_t i = 0; i < n; ++i) if (w[i] == 0 && v[i] > Mz) Mz = v[i];  // largest entry of weight zero
+  bool zeroOnTop = std::isfinite(Mz) && static_cast<LD>(Mz) > Meff;
+  LD D = zeroOnTop && !std::isinf(Meff) ? static_cast<LD>(Mz) - Meff : 0;  // distance between the shift used and the largest weighted entry
+  // entries of weight zero take part in the shift and in the products: the weighted terms underflow (D > 690) or 0*exp(v) = 0*inf
+  if (zeroOnTop && (D > 690 || (f == 1 && Mz > 709.78))) c.excludeIfKnown("C07-weighted-zero-weight");
   LD strue = 0; for (size_t i = 0; i < n; ++i) if (w[i] > 0) strue += static_cast<LD>(w[i]) * expl(static_cast<LD>(v[i]));
-  if (f == 1 && n > 1 && std::isfinite(Mall) && Mall > 709.78 && strue < 1.7e308L) c.excludeIfKnown("C07-sumexp-w-premature-overflow");
+  // exp(M) overflows although sum w_i exp(v_i) is representable (weights < 1)
+  if (f == 1 && !std::isinf(Meff) && Meff > 709.78 && strue < 1.7e308L) c.excludeIfKnown("C07-sumexp-w-premature-overflow");
   call();
   CHECK(exc == 0 || (exc == 3 && std::isinf(Mall) && !(f == 1 && n == 1)), "unexpected exception kind " << exc << " (max=" << sh(Mall) << ")");
   if (exc) return;
@@ -715,7 +719,7 @@ void logsumCheck(vf::Ctx& c, double a, double b) {
 const double LAT[] = {0.0, -INF, -1.0, 1.0, -745.0, 709.0, -1e300, 1e300, INF, 36.5, 1e-300};
 }  // namespace
 LAW(L11_logsum_enum, ENUM, 1, 1, 0, "an infinite argument, equal arguments, or a difference > 36") { double a = LAT[c.below(11)], b = LAT[c.below(11)]; logsumCheck(c, a, b); }
-LAW(L11_logsum, RC, 12000, 400000, 8, "an infinite argument, equal arguments, or a difference > 36") {
+LAW(L11_logsum, RC, 24000, 720000, 8, "an infinite argument, equal arguments, or a difference > 36") {
   auto gen = [&]() -> double {
     switch (c.weighted({3, 3, 2, 2, 1})) {
       case 0: return c.ival(40) / 4;
@@ -731,7 +735,7 @@ LAW(L11_logsum, RC, 12000, 400000, 8, "an infinite argument, equal arguments, or
 // =================================================================== L12 false discovery rate
 // fdr_i = p_i * n / rank_i, rank = 1-based position of p_i among the p-values sorted increasingly (Benjamini-Hochberg);
 // within a group of tied p-values any rank of the group is accepted.
-LAW(L12_fdr, RC, 16000, 500000, 80, "length <= 1, tied p-values, or input not already sorted") {
+LAW(L12_fdr, RC, 32000, 960000, 80, "length <= 1, tied p-values, or input not already sorted") {
   size_t n = genLen(c); vector<double> p(n); bool grid = !c.flag(); bool sorted = c.oneIn(4);
   for (auto& x : p) x = grid ? static_cast<double>(c.irange(0, 16)) / 16 : c.real(0, 1);
   if (sorted) sort(p.begin(), p.end());
